@@ -2,4 +2,5 @@ SPECIFICATION TSpec
 CONSTANTS
   ClearCountsRows = TRUE
   PlainNewline = TRUE
+  QuietClears = FALSE
 INVARIANT TermOK
